@@ -13,7 +13,7 @@ PROPERTY = "C07"
 NSHARDS = {"quick": 4, "thorough": 16}
 CLAUSES = {
     "C07.shape": 2000, "C07.member": 2000, "C07.multiplicity": 2000, "C07.outcross": 1200, "C07.xmap": 150,
-    "C07.solution": 600, "C07.truncation": 80, "C07.equivariance": 120, "C07.mo": 120,
+    "C07.solution": 600, "C07.truncation": 100, "C07.equivariance": 120, "C07.mo": 120,
     "C07.util.tiled.balance": 1000, "C07.util.sus.floorceil": 400, "C07.util.outcross.localopt": 1000,
 }
 HOOKS_REQUIRED = ["tiled_choice<-configuration", "stochastic_universal_sampling<-configuration", "outcross_shuffle<-configuration",
@@ -25,7 +25,7 @@ RULE = ("three seeded families.  cfg: the eight sampled configuration classes bu
         "crafted PCG64 states whose first draw is 0.0 or the largest double below 1; every configuration is also re-sampled.  "
         "sel: all concrete SelectionProtocol classes found at run time (57), each with an explicit optimiser (harness exact / prescribed-"
         "decision / front plug-in, the repo's sorting optimiser, or a GA with ngen<=15, pop<=24), populations with shuffled names and "
-        "ungrouped families, phased or unphased genotype input, 1-3 traits, ties and duplicated individuals, 1-2 objectives, "
+        "ungrouped families, gmat = the pgmat object | an equal but distinct phased object | unphased counts, 1-3 traits, ties and duplicated individuals, 1-2 objectives, "
         "ndset weights of both signs with four harness transformations or the library default.  equi: subset-encoded protocols run on a "
         "population, on a consistently permuted copy and on a renamed copy with exact optimisers.  Non-trivial: more than one slot or "
         "more than one candidate; distinct = digest of the generated inputs.")
@@ -40,6 +40,11 @@ ASSUME = ["all inputs of one select() call list the taxa in the same order (the 
           "an all-zero contribution/count vector defines no proportional share: only counted",
           "truncation by an independently computed criterion: EBV, GEBV, generalised weighted GEBV and weighted GS (subset encoding); "
           "OHV and usefulness-criterion crosses are ranked by the problem's own evaluation of single candidates (their definitions belong to C05/C18)",
+          "unscale=False protocols rank on standardised values: the independent criterion is standardised per trait before the index is formed",
+          "equivariance is asserted only when the enumerated optimum is unique by more than 1e-7 (relative), 5e-3 for criteria built on a "
+          "coancestry matrix, whose diagonal receives a random jitter (ties there are broken by the generator, not by the inputs)",
+          "the tighter floor/ceil reading of 'within one of the proportional share' (DESIGN) is used, with the C17 allowance when the share "
+          "is within 1e-9 of an integer and the library's float arithmetic may round either way",
           "C07.mo accepts any maximiser of ndset_wt*ndset_trans(front) (ties), recomputed by calling the declared function on the returned front"]
 TOL = 1e-9
 
@@ -573,7 +578,8 @@ def case_sel(ctx, c):
         n = int(g.integers(2, 13))
     n = max(n, 2)
     m = int(g.integers(6, 15)); t = int(g.integers(1, 4))
-    nobj = 2 if g.random() < 0.3 else 1
+    ranked = enc == "Subset" and (fam in INDEPENDENT or fam in OWN_CRITERION)     # truncation-type: mostly exact optimisers
+    nobj = 2 if g.random() < (0.15 if ranked else 0.3) else 1
     bvcls = str(g.choice(["gauss", "gauss", "ties", "duplicates"]))
     A = draw_arrays(g, n, m, t, bvcls, polymorphic=fam in INDEPENDENT[2:])
     unphased = [True, None, False][int(g.choice([0, 0, 0, 1, 1, 1, 2, 2, 2, 2]))]
@@ -584,6 +590,8 @@ def case_sel(ctx, c):
     decisions = []
     if nobj == 1:
         kinds = ["exact"] * 4 + ["sorting"] * 3 + ["random"] * 2 + ["ga"] if enc == "Subset" else ["prescribed"] * 8 + ["ga"]
+        if ranked:
+            kinds = ["exact"] * 5 + ["sorting"] * 4 + ["ga"]
     else:
         kinds = ["front"] * 5 + ["ga"]
     kind = str(g.choice(kinds))
@@ -845,7 +853,7 @@ def case_equi(ctx, c):
                       "%s/%s" % (icls, ocls), witness=dict(w, original_choice=ref, choice=got, expected=want, variant=variant), coords=coords)
 
 
-FAMILIES = {"cfg": (case_cfg, 2400, 80000), "sel": (case_sel, 57 * 40, 57 * 1000), "equi": (case_equi, 19 * 12, 19 * 300)}
+FAMILIES = {"cfg": (case_cfg, 2400, 50000), "sel": (case_sel, 57 * 40, 57 * 700), "equi": (case_equi, 19 * 12, 19 * 200)}
 
 
 def run_shard(ctx):
